@@ -156,6 +156,7 @@ ATHowOK(tab, fmt, w) ==
 \* ---- A2: the fields to print ------------------------------------------------------
 ATSel(tab, w) == IF ATGiven(w.sel.key) THEN w.sel.idx ELSE [j \in 1..Len(tab.fields) |-> j]
 ATSelBad(tab, w) == \E j \in DOMAIN ATSel(tab, w) : ATSel(tab, w)[j] \notin 1..Len(tab.fields)
+ATSelDup(tab, w) == \E j, k \in DOMAIN ATSel(tab, w) : j # k /\ ATSel(tab, w)[j] = ATSel(tab, w)[k]     \* not a "subset"
 ATAltOK(tab, w) == w.alt.given /\ Len(w.alt.names) = Len(ATSel(tab, w))
 ATName(tab, w, j) == IF ATAltOK(tab, w) THEN w.alt.names[j] ELSE tab.fields[ATSel(tab, w)[j]].nm
 
@@ -255,34 +256,43 @@ ATFailWith(H, i, cd) ==
 
 \* ---- rejections -----------------------------------------------------------------------
 ATSelScalarFloat(tab, w) == \A j \in DOMAIN ATSel(tab, w) :
-    LET fd == tab.fields[ATSel(tab, w)[j]] IN fd.cls = "f" /\ fd.shape = <<>>
+    ATSel(tab, w)[j] \in 1..Len(tab.fields) /\ LET fd == tab.fields[ATSel(tab, w)[j]] IN fd.cls = "f" /\ fd.shape = <<>>
 \* nothing is demanded of these calls (the documentation does not say what they do)
 ATUnconstrained(H, i) ==
     LET tab == H.calls[i].tab  w == H.calls[i].o  T == ATTypeSet(H, i) IN
     \/ ATSel(tab, w) = <<>>
+    \/ ATSelDup(tab, w) /\ "fancy" \in T
+    \/ w.sel.form = "index" /\ "fancy" \in T                    \* index numbers: in the code of the table type only, undocumented
     \/ w.fmt.kind = "f3" /\ ~ATSelBad(tab, w) /\ (~ATSelScalarFloat(tab, w) \/ w.hdr = "T" \/ "fancy" \in T)
     \/ "latex" \in T /\ (w.hdr \in {"T", "S"} \/ w.trailer.given \/ w.title.given \/ w.alt.given \/ w.nfmt.kind # "-")
     \/ "fancy" \notin T /\ w.title.given
     \/ "fancy" \in T /\ w.hdr \in {"S", "F"}
     \/ w.alt.given /\ ~ATAltOK(tab, w) /\ ("fancy" \in T \/ w.hdr = "T")     \* A7: "There must be an entry for each field"
-ATMustReject(H, i) == ATSelBad(H.calls[i].tab, H.calls[i].o)
+\* A2: a name that is no field cannot be printed - demanded when a row of it would have to be printed
+ATMustReject(H, i) ==
+    LET tab == H.calls[i].tab  w == H.calls[i].o IN
+    ATSelBad(tab, w) /\ tab.nrows > 0 /\ ~(w.nlines.given /\ w.nlines.n = 0)
 ATMayReject(H, i) ==
     LET tab == H.calls[i].tab  w == H.calls[i].o IN
     \/ w.alt.given /\ ~ATAltOK(tab, w)
     \/ w.sel.form = "index"
+    \/ ATSelDup(tab, w)
 
 ATStrayOK(H, i) == \/ ~H.calls[i].stray
                    \/ H.target = "stdout"
                    \/ H.target = "page" /\ "latex" \in ATTypeSet(H, i)
 
+\* which reading to blame when none fits: the one that fails the fewest clauses, a wrong number of lines counting most
+ATWeight(f) == Cardinality(f) + (IF "line_count" \in f THEN 10 ELSE 0)
 ATFailingCall(H, i) ==
     LET call == H.calls[i]
         F == {ATFailWith(H, i, cd) : cd \in ATCands(H, i)}
         out == IF ATUnconstrained(H, i) THEN {}
                ELSE IF ATMustReject(H, i) THEN (IF call.err = "none" THEN {"not_rejected"} ELSE {})
+               ELSE IF ATSelBad(call.tab, call.o) THEN {}
                ELSE IF call.err # "none" THEN (IF ATMayReject(H, i) THEN {} ELSE {"rejected"})
-               ELSE IF {} \in F THEN {}
-               ELSE CHOOSE f \in F : \A g \in F : Cardinality(f) <= Cardinality(g)
+               ELSE IF \E cd \in ATCands(H, i) : ATFailWith(H, i, cd) = {} THEN {}
+               ELSE CHOOSE f \in F : \A g \in F : ATWeight(f) <= ATWeight(g)
     IN out \cup (IF ATStrayOK(H, i) THEN {} ELSE {"stray_output"})
 
 \* leads: documented in aprint's docstring but not in the code / in the code but not documented
@@ -353,7 +363,7 @@ ATIsOn(p) == p[1] = 1
 
 \* ---- B1 random_indices: c == [imax, n, unique], o == [err, vals, again]
 ATIdxFailing(c, o) ==
-    IF c.unique /\ c.n > c.imax THEN (IF o.err = "none" THEN {"not_rejected"} ELSE {})
+    IF (c.unique /\ c.n > c.imax) \/ (c.imax = 0 /\ c.n > 0) THEN (IF o.err = "none" THEN {"not_rejected"} ELSE {})
     ELSE IF o.err # "none" THEN {"rejected"}
     ELSE (IF Len(o.vals) # c.n THEN {"count"} ELSE {}) \cup
          (IF \E j \in DOMAIN o.vals : o.vals[j] < 0 \/ o.vals[j] >= c.imax THEN {"range"} ELSE {}) \cup
@@ -429,10 +439,11 @@ ATLogNormalFailing(c, o) ==
          (IF o.shapes # <<<<>>, <<3>>>> THEN {"sample_shape"} ELSE {}) \cup
          (IF ~o.again THEN {"reproducible"} ELSE {})
 
-\* ---- B7 get_dist: c == [name, known, kind], o == [err, cls, mean, sigma]
+\* ---- B7 get_dist: c == [name, known, documented, kind], o == [err, cls, mean, sigma]
+\* (a name that differs from 'normal' / 'lognormal' only by case may be rejected)
 ATGetDistFailing(c, o) ==
     IF ~c.known THEN (IF o.err = "none" THEN {"not_rejected"} ELSE {})
-    ELSE IF o.err # "none" THEN {"rejected"}
+    ELSE IF o.err # "none" THEN (IF c.documented THEN {"rejected"} ELSE {})
     ELSE (IF o.cls # c.kind THEN {"class"} ELSE {}) \cup
          (IF ~(ATOn(o.mean, c.mean) /\ ATOn(o.sigma, c.sigma)) THEN {"parameters"} ELSE {})
 
